@@ -11,11 +11,17 @@ Open Scope Z_scope.
    active (or its status ignored), is not a pipe with a closed pi valve, and both ends are kept *)
 Theorem edge_iff_branch_row : forall a n u v t l w,
   In (mkE u v t l w) (edges a n) <->
-  exists rows r, In (t, rows) (n_tables n) /\ In r rows /\
+  exists rows r, In (t, rows) (n_tables n) /\ In r (sel_rows (f_only (flags_of (a_flags a) t)) rows) /\
     f_include (flags_of (a_flags a) t) = true /\ row_in a n t r = true /\
     u = b_from r /\ v = b_to r /\ l = b_label r /\ w = b_w r /\ kept a n u /\ kept a n v.
 Proof. exact edge_in_graph_iff. Qed.
 Print Assumptions edge_iff_branch_row.
+
+(* include_X given as a list of labels: exactly the rows with those labels *)
+Theorem include_list_meaning : forall o rows r,
+  In r (sel_rows o rows) <-> In r rows /\ match o with None => True | Some ls => In (b_label r) ls end.
+Proof. exact sel_rows_In. Qed.
+Print Assumptions include_list_meaning.
 
 Theorem row_in_meaning : forall a n t r,
   row_in a n t r = true <->
@@ -28,6 +34,7 @@ Print Assumptions row_in_meaning.
 (* ... and contributes exactly one: keys (table, label) are unique in the multigraph *)
 Theorem one_edge_per_branch : forall a n,
   NoDup (map fst (n_tables n)) -> (forall tb, In tb (n_tables n) -> NoDup (map b_label (snd tb))) ->
+  (forall t ls, f_only (flags_of (a_flags a) t) = Some ls -> NoDup ls) ->
   NoDup (map key (edges a n)).
 Proof. exact keys_edges_unique. Qed.
 Print Assumptions one_edge_per_branch.
@@ -91,6 +98,36 @@ Proof.
 Qed.
 Print Assumptions graph_components_eq_islands.
 
+(* the same over C04's table-level pit model: for junction labels js and branch tables whose rows are all in service,
+   undirected and no flow-return connection, the solver's own pit C04.mk_branches js tabs (positions from its index
+   lookup) has the assumed shape - no hypothesis about the pit is left, only about the tables: unique junction labels,
+   intact references, the three flags, seeds among the junctions, node flags of the solver (all active, slack = seeds) *)
+Theorem graph_components_eq_islands_pit : forall js tabs seeds nact slack,
+  NoDup js ->
+  (forall r, In r (concat tabs) ->
+     PP.C04.Model.r_active r = true /\ PP.C04.Model.r_directed r = false /\ PP.C04.Model.r_frc r = false) ->
+  (forall r, In r (concat tabs) -> In (PP.C04.Model.r_from r) js /\ In (PP.C04.Model.r_to r) js) ->
+  (forall s, In s seeds -> In s js) ->
+  (forall x, In x js -> PP.C04.Model.nthb nact (pit_pos js x) = true) ->
+  (forall i, PP.C04.Model.nthb slack i = true <-> exists s, In s seeds /\ pit_pos js s = i) ->
+  forall v, In v js ->
+    (Reach (pit_edges tabs) seeds v <->
+     PP.C04.Model.nthb (fst (PP.C04.Model.search_hyd (length js) (PP.C04.Model.mk_branches js tabs)
+                               (map PP.C04.Model.b_active (PP.C04.Model.mk_branches js tabs)) nact slack)) (pit_pos js v) = true).
+Proof. exact components_eq_islands_pit. Qed.
+Print Assumptions graph_components_eq_islands_pit.
+
+(* instance: junctions 10, 4, 7 (pit positions 0, 1, 2), one pipe 10-4, supply at 10: the solver marks 10 and 4, not 7,
+   and the graph closure from [10] over the same table is [10; 4] *)
+Example islands_instance :
+  let js := [10; 4; 7] in
+  let tabs := [[PP.C04.Model.Build_brow 1 10 4 true false false]] in
+  let mark := fst (PP.C04.Model.search_hyd 3 (PP.C04.Model.mk_branches js tabs)
+                     (map PP.C04.Model.b_active (PP.C04.Model.mk_branches js tabs)) [true; true; true] [true; false; false]) in
+  map (fun v => PP.C04.Model.nthb mark (pit_pos js v)) js = [true; true; false] /\
+  iter (pit_edges tabs) 3 [10] = [10; 4] /\ stable (pit_edges tabs) [10; 4] = true.
+Proof. vm_compute. auto. Qed.
+
 (* unsupplied_junctions = nodes not reachable from a junction of the slack set *)
 Theorem unsupplied_is_unreachable_from_ext_grids : forall a n x,
   stable (edges a n) (reach a n (slacks_code n)) = true ->
@@ -135,7 +172,8 @@ Example witness_facts :
   stable (edges dflt witness_nv) (reach dflt witness_nv [0]) = true /\
   dstable (arcs dflt witness_nv) [0] (dist_map dflt witness_nv [0]) = true /\
   get (dist_map dflt witness_nv [0]) 2 = Some 48 /\
-  length (edges dflt witness_nv) = 5%nat.
+  length (edges dflt witness_nv) = 5%nat /\
+  map e_lab (edges (mkArgs [("pipe", mkF true true (Some [5; 3]))] true true [] [] true) witness) = [5; 3; 0].
 Proof.
   split; [repeat constructor; simpl; intuition discriminate|]. vm_compute. auto.
 Qed.
